@@ -1,4 +1,4 @@
-import JSL.Inv.EnvReach
+import JSL.Inv.Reach
 
 /-!
 # What the offers promise
@@ -127,5 +127,55 @@ theorem offers_valid (w : WF inst) {cfg : SMConfig} {s : State} (hI : StructInv 
     simp only [transitionValid, getTransport_of_mem htn ht', bind, Except.bind, pure, Except.pure,
       transportTransitionValid]
     rw [hcond.1]; rfl
+
+/-- what a dispatch on offer promises -/
+theorem possibleTransport_facts {cfg : SMConfig} {s : State} {pt : List Transition}
+    (h : possibleTransportTransitions inst cfg s = .ok pt) :
+    ∀ tr ∈ pt, ∃ t ∈ s.transports, ∃ j ∈ s.jobs, tr = { comp := .t t.id, new := .t .working, job := some j.id } ∧
+      t.st = .idle ∧ (∀ x ∈ s.transports, x.job ≠ some j.id) ∧
+      (cfg.allowEarly = false → readyForPickup inst s j = .ok true) := by
+  unfold possibleTransportTransitions at h
+  obtain ⟨ts, hts, h⟩ := except_bind_eq_ok h
+  obtain ⟨idle, hidle, h⟩ := except_bind_eq_ok h
+  simp only at h
+  obtain ⟨lonely, hlonely, h⟩ := except_bind_eq_ok h
+  simp at h; subst h
+  intro tr htr
+  simp only [List.mem_flatMap, List.mem_map] at htr
+  obtain ⟨t, ht, j, hj, rfl⟩ := htr
+  -- the AGV
+  unfold possibleTransports at hts
+  obtain ⟨l, hl, hts⟩ := except_bind_eq_ok hts
+  simp at hts; subst hts
+  obtain ⟨x, hx, e⟩ := List.mem_filterMap.mp ht
+  simp at e; subst e
+  obtain ⟨t', ht', e⟩ := (mapM_ok_mem hl).2 _ hx
+  obtain ⟨tc, _, e⟩ := except_bind_eq_ok e
+  simp at e
+  obtain ⟨hcond, rfl⟩ := e
+  -- the job
+  have hjl : j ∈ (s.jobs.filter (·.running) ++ idle).filter (fun j => !(s.transports.filterMap (·.job)).contains j.id) ∧
+      (cfg.allowEarly = false → readyForPickup inst s j = .ok true) := by
+    unfold earlyFilter at hlonely
+    by_cases he : cfg.allowEarly = true
+    · rw [if_pos he] at hlonely
+      injection hlonely with h'
+      rw [← h'] at hj
+      exact ⟨hj, fun h0 => by rw [he] at h0; cases h0⟩
+    · rw [if_neg he] at hlonely
+      have := filterE_ok hlonely j hj
+      exact ⟨this.1, fun _ => this.2⟩
+  obtain ⟨hjm, hunc⟩ := List.mem_filter.mp hjl.1
+  have hjs : j ∈ s.jobs := by
+    rcases List.mem_append.mp hjm with h1 | h1
+    · exact (List.mem_filter.mp h1).1
+    · exact (List.mem_filter.mp (filterE_ok hidle j h1).1).1
+  refine ⟨t', ht', j, hjs, rfl, hcond.1, ?_, hjl.2⟩
+  intro x hx hxj
+  have : (s.transports.filterMap (·.job)).contains j.id = true := by
+    apply List.contains_iff_mem.mpr
+    exact List.mem_filterMap.mpr ⟨x, hx, hxj⟩
+  rw [this] at hunc
+  simp at hunc
 
 end JSL
